@@ -71,6 +71,19 @@ def exhaustive(tier):
             for b in twins:
                 yield {"spec": typed, "value": [a, b], "src": "conforming", "applied": None}
         yield {"spec": typed, "value": [1, 1, 1.0, 1], "src": "conforming", "applied": None}
+    # enumerations (every alternative a constant) x the same scalars, bare and as list elements
+    import decimal
+    import fractions
+    from ..codec import Zoo
+    enums = [[{"t": "int", "value": 1}, {"t": "int", "value": 0}], [{"t": "int", "value": 3}, {"t": "none"}, {"t": "str", "value": "a"}],
+             [{"t": "str", "value": ""}, {"t": "str", "value": "a"}], [{"t": "none"}, {"t": "int", "value": 2 ** 70}],
+             [{"t": "int", "value": 1}], [{"t": "float", "value": 1.0}, {"t": "int", "value": 3}], [{"t": "bool", "value": True}, {"t": "none"}],
+             [{"t": "int", "value": -1}, {"t": "int", "value": 1}, {"t": "int", "value": 3}, {"t": "str", "value": "1"}]]
+    for alts in enums:
+        en = {"t": "any", "alts": alts}
+        for a in twins + ["1", "3", 2, 2.0]:
+            yield {"spec": en, "value": a, "src": "conforming", "applied": None}
+            yield {"spec": {"t": "list", "form": "typed", "elem": en}, "value": [a, 1, a], "src": "conforming", "applied": None}
         yield {"spec": {"t": "dict", "entries": [{"key": "x", "opt": False, "spec": e}, {"key": "y", "opt": False, "spec": e}],
                         "relaxed": False}, "value": {"x": 1, "y": 1.0}, "src": "conforming", "applied": None}
 
